@@ -894,7 +894,10 @@ fn extract<'tcx>(tcx: TyCtxt<'tcx>, out_path: &str) {
                 }
             }
             DefKind::Static { mutability, .. } => {
-                statics.push(obj! {"id"=>s(local_id(tcx, did)), "mut"=>J::Bool(mutability.is_mut())});
+                let sty = tcx.type_of(did).instantiate_identity().skip_norm_wip();
+                let senv = TypingEnv::post_analysis(tcx, did);
+                statics.push(obj! {"id"=>s(local_id(tcx, did)), "mut"=>J::Bool(mutability.is_mut()),
+                    "ty_s"=>s(&format!("{:?}", sty)), "freeze"=>J::Bool(sty.is_freeze(tcx, senv))});
             }
             _ => {}
         }
